@@ -54,17 +54,30 @@ pub fn run(ctx: &mut Ctx) {
     let n = ctx.tier.pick(100_000, 600_000);
     ctx.run_proptest("random-fields", &STD, n, payload_inputs(SUPPORTED.to_vec(), LenMode::Standard, Prop::C09, 6, 0.10), check);
     ctx.run_proptest("random-any-length", &STD, n / 2, payload_inputs((0..64).collect(), LenMode::Any, Prop::C09, 3, 0.05), check);
+    // every field inverted as a whole and bit by bit against all-zero and all-one backgrounds
+    for &t in crate::refmodel::layout::SUPPORTED.iter() {
+        for len in crate::refmodel::layout::standard_lengths(t) {
+            let mut inputs = Vec::new();
+            crate::gen::payload::field_sweep(t, len, |b| inputs.push(b));
+            for b in inputs {
+                ctx.sweep_case("field-sweep", &crate::adapter::STD, &Input::Payload { bytes: b }, check);
+            }
+        }
+    }
+    ctx.mark_exhaustive("field-sweep", "every field of every specified shape x {inverted whole, each single bit inverted} x {all-zero, all-one background}");
     // every pair of fields at their special values (see gen::payload::pairwise_specials)
     {
         let mut mix = crate::util::Mix::new(ctx.seed, 0xa11);
         let reps = ctx.tier.pick(1, 6);
         for (t, len, part) in crate::gen::payload::pairwise_shapes() {
             
-            crate::gen::payload::pairwise_specials(t, len, part, reps, &mut mix, |b| {
-                ctx.sweep_case("pairwise-special-values", &crate::adapter::STD, &Input::Payload { bytes: b }, check);
-            });
+            for base in 0..3u8 {
+                crate::gen::payload::pairwise_specials(t, len, part, if base == 0 { reps } else { 1 }, base, &mut mix, |b| {
+                    ctx.sweep_case("pairwise-special-values", &crate::adapter::STD, &Input::Payload { bytes: b }, check);
+                });
+            }
         }
-        ctx.mark_exhaustive("pairwise-special-values", "every pair of fields of every layout (longest specified shape, and the shortest for the variable ones) x each field's special values (0, 1, max, max-1, 'not available' codes, MMSI station classes; all values of fields up to 3 bits), other bits random");
+        ctx.mark_exhaustive("pairwise-special-values", "every pair of fields of every layout (longest specified shape, and the shortest for the variable ones) x each field's special values (0, 1, max, max-1, 'not available' codes, MMSI station classes, time-stamp codes 60..63; all values of fields up to 3 bits), against three backgrounds: the other bits random, all zero, and 'everything unavailable'");
     }
     // decoding after an arbitrary history, in an unfragmented sentence or in a closing line without a group
     {
